@@ -149,6 +149,12 @@ def execEntryOp (st : DState) (env : Env) (name : String) (args : List String) (
   | "into_values", [n] =>
     no <| resOut (Map.intoValues cfg env (nat! n) w)
       (fun l => String.intercalate "," (l.map fun e => fmtOptVal ids (some (e.vid, e.v)))) w
+  | "into_keys_fold", [n] =>
+    no <| resOut (Map.intoKeys cfg (foldEnv env (nat! n) w) (if nat! n = 0 then w.t.items else nat! n) w)
+      (fun l => String.intercalate "," (l.map fun e => fmtKey ids e.k e.kid)) w
+  | "into_values_fold", [n] =>
+    no <| resOut (Map.intoValues cfg (foldEnv env (nat! n) w) (if nat! n = 0 then w.t.items else nat! n) w)
+      (fun l => String.intercalate "," (l.map fun e => fmtOptVal ids (some (e.vid, e.v)))) w
   | "values_mut_set", [nv] => no ({ ret := "()", w := Map.valuesMutSet (nat! nv) w }, false)
   | _, _ =>
     let _ := commaE
